@@ -260,10 +260,58 @@ def _wrapper_rules(ck, F, TRAITS, only):
                            "wrapper does not override defaulted method `%s`: the wrapped value never sees it" % name)
             if name not in imp["methods"]:
                 continue
-            if (hd, tr, name) in SHAPE_EXEMPT or name == "downcast_raw":
-                continue  # downcast_raw is about type identity, not a notification
+            if name == "downcast_raw":
+                check_downcast(ck, F, tr, imp, iname)      # about type identity, not a notification
+                continue
+            if (hd, tr, name) in SHAPE_EXEMPT:
+                continue
             check_forwarding(ck, F, tr, imp, iname, m)
 
+
+
+def check_downcast(ck, F, tr, imp, iname):
+    """downcast_raw: a pointer to the wrapper itself (or to the crate's none-layer marker) is handed out exactly for the
+    TypeId it stands for; every other id goes on to the wrapped value(s)."""
+    from rulekit.sym import PathEval, show
+    name = "downcast_raw"
+    path = imp["methods"][name]
+    top = F.body(path)
+    key = "%s::%s" % (iname, name)
+    hd = head(imp["self_ty"])
+    if top is None:
+        return
+    problems = []
+
+    def asked_for(pth):
+        out = []
+        for c in pth.conds:
+            t = c[0]
+            if t[0] == "call" and t[1].endswith("PartialEq::eq") and c[1] != 0:
+                for a in t[2]:
+                    if a[0] == "call" and a[1] == "core::any::TypeId::of":
+                        out += top.term(a[3])["callee"].get("targs", [])
+        return out
+    gave_self = False
+    for pth in PathEval(top).run():
+        if pth.end != "return" or pth.ret is None:
+            continue
+        r = show(pth.ret)
+        if "cast(from(arg1))" in r:
+            gave_self = True
+            if not any(x in ("Self", imp["self_ty"]) or x.split("<")[0] == imp["self_ty"].split("<")[0] for x in asked_for(pth)):
+                problems.append("a pointer to the wrapper is returned on a path that did not establish id == TypeId::of::<Self>() (asked for: %s)" % asked_for(pth))
+        elif "NONE_LAYER_MARKER" in r:
+            if not any("NoneLayerMarker" in x for x in asked_for(pth)):
+                problems.append("the none-layer marker is returned on a path that did not establish id == TypeId::of::<NoneLayerMarker>()")
+    if hd == "tracing_subscriber::reload::Subscriber":
+        # a pointer into the lock would dangle: only the never-dereferenced none-layer marker may be looked up inside
+        for pth in PathEval(top).run():
+            if pth.end == "return" and any(c[1].get("method") == "downcast_raw" for c in pth.calls) and not any("NoneLayerMarker" in x for x in asked_for(pth)):
+                problems.append("the wrapped value is asked for a pointer on a path that did not establish id == TypeId::of::<NoneLayerMarker>()")
+    if problems:
+        ck.bad(RIDS["R2"], key, where(top.raw["sp"]), "; ".join(sorted(set(problems))), fn=path)
+    else:
+        ck.ok(RIDS["R2"], key, fn=path, detail="self pointer only for TypeId::of::<Self>()")
 
 
 def short(tr):
@@ -505,7 +553,24 @@ def check_order(ck, top, by_recv, key, name, tr):
         if ib is top and ob is top and top.dominates(obb, ibb) and ibb != obb:
             # inner must be control-dependent on the outer's verdict: a path from outer to return avoiding inner exists
             reach = top.reachable(obb, avoid=[ibb])
-            if any(e in reach for e in top.exits()):
+            # ... with the right polarity: the layer's `false` is the veto (returns false without asking), its `true` hands
+            # the decision to the inner value
+            from rulekit.sym import PathEval, show
+            wrong = []
+            for pth in PathEval(top).run():
+                if pth.end != "return" or pth.ret is None:
+                    continue
+                verdicts = [c[1] for c in pth.conds if c[0][0] == "call" and c[0][3] == obb]
+                if not verdicts:
+                    continue
+                asked_inner = ibb in pth.blocks
+                if verdicts[0] == 0 and (asked_inner or show(pth.ret) not in ("0", "false")):
+                    wrong.append("the layer said no, yet the result is %s%s" % (show(pth.ret)[:40], " and the inner value was asked" if asked_inner else ""))
+                if verdicts[0] != 0 and not asked_inner:
+                    wrong.append("the layer said yes, but the inner value is not asked (result %s)" % show(pth.ret)[:40])
+            if wrong:
+                ck.bad(RIDS["R3"], key, where(top.raw["sp"]), "; ".join(sorted(set(wrong))))
+            elif any(e in reach for e in top.exits()):
                 ck.ok(RIDS["R3"], key, detail=dict(order="layer bb%d asked first; inner bb%d conditional" % (obb, ibb)))
             else:
                 ck.bad(RIDS["R3"], key, where(top.raw["sp"]), "a veto from the layer does not skip the inner value")
